@@ -119,6 +119,10 @@ namespace osmium {
             }
 
             inline void append_xml_encoded_string(std::string& out, const char* data) {
+                if (!std::strpbrk(data, "&\"<>\r\n")) {  // X1: the fast path lets '\t' (and '\'') through
+                    out.append(data);
+                    return;
+                }
                 for (; *data != '\0'; ++data) {
                     switch (*data) {
                         case '&':  out += "&amp;";  break;
@@ -272,6 +276,15 @@ namespace osmium {
                 }
             };
 
+            class XMLParser {
+                std::string m_comment_text;
+
+            public:
+                void characters(const char* text, int len) {
+                    m_comment_text.assign(text, len);  // X3: keeps only the last chunk
+                }
+            };
+
             class XMLOutputBlock {
                 std::shared_ptr<std::string> m_out;
 
@@ -289,7 +302,8 @@ namespace osmium {
             };
 
             inline void verif_positive_c14(std::string& out, const char* data, OPLOutputBlock& o, XMLOutputBlock& x,
-                                           const osmium::RelationMember& m, const osmium::Tag& t) {
+                                           const osmium::RelationMember& m, const osmium::Tag& t, XMLParser& xp) {
+                xp.characters(data, 1);
                 append_utf8_encoded_string(out, data);
                 append_xml_encoded_string(out, data);
                 std::string k;
